@@ -32,6 +32,7 @@ type v1Case struct {
 	Valid bool     `json:"valid"` // std Valid(input) (for the untouched-target clause)
 	Panic string   `json:"panic"`
 	Toks  []string `json:"toks"` // decoder programs of Token calls only: kinds std returned
+	Fed   bool     `json:"fed"`  // decoder programs: the input arrived in pieces written between the calls
 }
 
 func res(ok bool, b []byte) []any {
@@ -476,6 +477,7 @@ func v1Exec(c *v1Case) {
 		if r.IntN(4) == 0 {
 			bb1, bb2 = &bytes.Buffer{}, &bytes.Buffer{}
 			rd1, rd2 = bb1, bb2
+			c.Fed = true
 			feed = func() {
 				if fed < len(in) && r.IntN(2) == 0 {
 					k := min(len(in)-fed, 1+r.IntN(30))
